@@ -74,7 +74,9 @@ claim("C15",
       "end-of-episode barrier) and C15_created_view (a join handler parked at the start barrier announces the view held). "
       "The byte-level frame (one JSON document + end-of-message marker) is decided by monitors over the raw bytes of real "
       "in-process coordinator sessions, single-agent and multi-agent with collective resets and faults (these sessions are "
-      "also followed by the coordinator model) - that part is partial: not a theorem.",
+      "also followed by the coordinator model) - that part is partial: not a theorem. Whenever the coordinator answers, the view it "
+      "holds must also be made of sets and dictionaries of sets of the documented classes (a list where a set belongs encodes "
+      "the same but is not equal to what the response decodes to).",
       "Trusted: Coq kernel + VM; std++ 1.8; translator harness/translate/codec.py; json library as premise; IPv4-only "
       "address validity; the in-process loop driver and cyst stub for the session monitor.",
       "machine-checked proof in Rocq (Coq 8.16, std++) of a Gallina codec model + source-shape translator with per-run obligations + model/code correspondence + session monitor",
@@ -207,7 +209,9 @@ claim("C09",
       "role, game/reset before joining, invalid parameters - is answered BAD_REQUEST), C09_frame (and changes nothing but the "
       "sender's response queue: agents, world, events, files, other connections untouched), C09_others / C09_world (the handler of one address leaves every other agent's record untouched; only game actions and joins "
       "touch the world), C09_alive, C09_no_replay; per-run "
-      "obligations on the dispatcher source (parse failure replies and continues; default arm replies).", C_NOTE, C_TECH, "DESIGN.md section 7, C09")
+      "obligations on the dispatcher source (parse failure replies and continues; default arm replies). The malformed stream of the "
+      "sessions includes well-formed requests followed by more bytes (garbage, a second request, the end-of-message mark); a "
+      "response-pairing monitor reports any bad request answered with OK / CREATED / RESET_DONE.", C_NOTE, C_TECH, "DESIGN.md section 7, C09")
 claim("C10",
       "Rocq theorems: C10_others (every label except the two background tasks leaves the records of all agents but at most one "
       "exactly as they are), C10_forget (after the quit handler the address is in no per-agent table and every other agent's record is "
@@ -220,7 +224,8 @@ claim("C16",
       "response), C16_refused, C16_frame, C16_handout, C16_files, C16_files_exact / C16_files_frame (the reset task appends exactly one record per agent in the game, nothing else ever writes); for every reachable state: C16_wf (one more state than actions, as many rewards "
       "as actions), C16_one_label (one label leaves a trajectory alone, appends exactly the answered triple, or restarts it). Monitor: last_trajectory of every RESET_DONE compared with the log "
       "of OK responses the harness received; trajectory files compared with the model after every step (sessions run in a scratch "
-      "working directory without a trajectories folder).", C_NOTE, C_TECH, "DESIGN.md section 7, C16")
+      "working directory without a trajectories folder). One configuration in five has fractional rewards (binary fractions down to "
+      "1/16, finer than two decimals), followed by the Z-valued model at scale 16.", C_NOTE, C_TECH, "DESIGN.md section 7, C16")
 claim("C18",
       "Rocq theorems for all label sequences: C18_bound (served connections <= required players in every reachable state), C18_count "
       "(the counter equals the number of connections being served: every end gave its slot back exactly once), C18_reject, "
@@ -250,7 +255,9 @@ claim("C19",
       "behaviour-level effect in every combination; a goal probe plays one exfiltration script under five goals in two "
       "delivery orders and compares the end flag after every answer with the reference subset check of the configured goal; a "
       "required-players probe (absent / 1 / 2 / 3) checks that no episode - the first or a later one after a departure - starts "
-      "before the configured number of players is in the game. "
+      "before the configured number of players is in the game; a wildcard-order probe hands every permutation of {all_local, "
+      "the outside host, random, a local host} to the view builder (the reader keeps the items in a set, so their order is Python's) "
+      "and requires all local addresses plus every listed address each time. "
       "The section readers (glue) are decided by correspondence: generated "
       "configurations over all subsets of optional keys go through the real ConfigParser, start_tasks and joins; parsed start "
       "position / win condition are compared with the listed items, the join reply with the configuration, the initial view with "
@@ -288,17 +295,22 @@ claim("C13",
 claim("C20",
       "What a theorem can carry: C20_order_sets / C20_order_dicts (the value a response decodes to does not depend on the order in "
       "which Python wrote its sets and dictionaries - the order that varies with PYTHONHASHSEED) and C20_canonical (equal canonical "
-      "encodings <-> equal views), so comparing decoded transcripts across processes is well defined. The property itself - "
+      "encodings <-> equal views), so comparing decoded transcripts across processes is well defined; and over the coordinator model "
+      "(Model/Coord.v, Proofs/CoordRename.v) C20_peer_addresses: the transition system commutes with every one-to-one renaming of the "
+      "peer addresses - the same events from other addresses (ephemeral ports differ from run to run) are enabled exactly when the "
+      "originals are, consume the world's draws in the same order, write the same files and send every connection what it was sent "
+      "before (C20_peer_addresses_observables); tied to coordinator.py by the trace-following correspondence and by playing every "
+      "session a second time on the real coordinator from renamed, order-reversed peer addresses (identical answers required). The rest of the property - "
       "independence of process, hash randomisation and wall-clock time, and the reproducible configuration hash - is a runtime "
       "property no executable model exhibits; it is decided by cross-process runs: identical multi-episode probe sessions (three attackers with random start hosts and a "
       "defender, collective resets, refused requests of every kind; also with the global defender on, so that its detection "
       "draws are part of the transcripts; every worker plays its session twice in one process, with two coordinators started one "
-      "after the other on the same configuration file) "
+      "after the other on the same configuration file, the second one reached from other peer addresses in reversed order) "
       "(static and dynamic addresses, all playable shipped scenarios, several seeds) in separate interpreter processes with "
       "different PYTHONHASHSEED values must give identical decoded transcripts, address maps and hashes; hashes must differ between "
       "scenarios. Labelled partial.",
-      "Trusted: Coq kernel; std++; the cross-process harness (harness/c20_worker.py); SHA-256 opaque; only the shipped scenarios.",
-      "machine-checked proof in Rocq (Coq 8.16) of order-independence of decoding + cross-process differential runs (partial: the runtime part is not a theorem)",
+      "Trusted: Coq kernel; std++; the cross-process harness (harness/c20_worker.py); the in-process loop driver and the session generators for the coordinator part; SHA-256 opaque; only the shipped scenarios.",
+      "machine-checked proof in Rocq (Coq 8.16) of order-independence of decoding and of address-renaming equivariance of the coordinator model + trace-following correspondence + cross-process differential runs (partial: the runtime part is not a theorem)",
       "DESIGN.md section 7, C20")
 
 
